@@ -109,4 +109,6 @@ def run(ctx):
     rep.floor('R04.4', 'reflection checks', n_refl, 2 * ns)
     from rules import profile
     profile.check(ctx, rep, 'R04.P', ['clog_finish', 'creg_finish'])
+    from rules import lclone
+    lclone.check(ctx, rep, 'R04.C')
     return rep
